@@ -334,7 +334,9 @@ func (e *eng) checkC27() {
 					// on a connection that then stays open
 					wantLen := len(ap.Resp.Body)
 					fromBackend := len(m.Get("X-Backend-Id")) > 0 && m.Get("X-Backend-Id")[0] == ap.Resp.Fields[0].Value // not BFE's own error page
-					if p.Method != "HEAD" && fromBackend && m.Status == ap.Resp.Status && len(m.Body) < wantLen && !cr.Closed && i == len(cr.Sent)-1 {
+					// (a chunked body that ends with its terminator is complete for the client whether or
+					// not the connection closes afterwards)
+					if p.Method != "HEAD" && fromBackend && m.Status == ap.Resp.Status && len(m.Body) < wantLen && (m.Framing == "chunked" || !cr.Closed && i == len(cr.Sent)-1) {
 						s.FailK("C27.truncation", "truncated-body-delivered-as-complete", "req %d: backend failed mid-body (%d of %d bytes) but the client got a complete-looking %d-byte response on a connection that stays open",
 							p.ID, len(m.Body), wantLen, len(m.Body))
 						return
